@@ -196,6 +196,29 @@ impl<'t, 'a> FlowGen<'t, 'a> {
         }
         let body = self.block(4, 0);
         s.extend(body);
+        if self.t.chance(1, 30) {
+            // a loop of 250-420 passes (more than a byte can count), with a `continue` on most passes and a `break`
+            // on the way: only every 64th pass prints
+            let n = simple("passes");
+            let k = 250 + self.t.pick(171);
+            let brk = if self.t.chance(1, 2) { k + 5 } else { 200 + self.t.pick(k - 200) };
+            s.push(put(num(0.0), &n));
+            s.push(Stmt::While {
+                cond: bin(BinOp::Less, var(&n), num(k as f64)),
+                body: vec![
+                    Stmt::Inc { dest: Ident::Name(n.clone()), amount: 1 },
+                    Stmt::If { cond: bin(BinOp::Eq, var(&n), num(brk as f64)), then: vec![say(strlit("out")), Stmt::Break], els: None },
+                    Stmt::If { cond: bin(BinOp::Eq, var(&n), num(256.0)), then: vec![say(var(&n))], els: None },
+                    Stmt::If {
+                        cond: bin(BinOp::Or, bin(BinOp::Or, bin(BinOp::Eq, var(&n), num(64.0)), bin(BinOp::Eq, var(&n), num(128.0))), bin(BinOp::Eq, var(&n), num(255.0))),
+                        then: vec![],
+                        els: Some(vec![Stmt::Continue]),
+                    },
+                    say(var(&n)),
+                ],
+            });
+            s.push(say(var(&n)));
+        }
         s.push(self.mark());
         Program::single(s)
     }
